@@ -75,7 +75,8 @@ struct Tok {
   ap: u8,
   alg: u8,
 }
-const PAYLOADS: [&[u8]; 5] = [b"a", b"{\"x\":1}", b"a.b", &[0xff, 0x00], b"~-_"];
+/// The last one is itself valid base64url text: with b64=false the claims must be it, not its decoding.
+const PAYLOADS: [&[u8]; 6] = [b"a", b"{\"x\":1}", b"a.b", &[0xff, 0x00], b"~-_", b"aGk"];
 const SER: [&str; 4] = [
   "Decoder::decode_compact_serialization",
   "Decoder::decode_flattened_serialization",
@@ -910,7 +911,7 @@ fn account(ctx: &Ctx, name: &str, n: u64, mut detail: serde_json::Value) {
 fn generate(ctx: &Ctx) {
   ctx.rule("(a) full product of the token construction table, each token assembled and signed by the harness, decoded and verified with a recording verifier; (b) every single-bit flip (thorough: + byte substitutions) of every byte of the protected segment / payload / signature segment (compact: whole token) of every baseline token, executed with the real verifiers, also through CoreDocument::verify_jws; (c) alg x key x signature table on the concrete verifiers. distinct_nontrivial = distinct construction rows that verified or lie outside the baseline family, distinct baseline tokens swept, distinct verifier-table rows");
   ctx.assume("fixed-seed keys; p256/k256/iota-crypto signing in the harness is trusted to produce genuine signatures; a changed signing input or signature verifying by chance is ignored (2^-128)");
-  let all = [0u8, 1, 2, 3, 4];
+  let all = [0u8, 1, 2, 3, 4, 5];
   // ---- (a)
   let mut rows: Vec<Tok> = toks(&[0], &[0, 1, 2, 3], &all, &[0, 1, 2, 3]);
   if ctx.quick() {
@@ -974,7 +975,7 @@ fn generate(ctx: &Ctx) {
   for &alg in algs {
     for det in [false, true] {
       for b64m in 0..3u8 {
-        for pl in [0u8, 1, 4] {
+        for pl in [0u8, 1, 5] {
           for sp in [0u8, 2] {
             let t = Tok { ser: 0, det, b64: b64m, pl, sp, ap: 0, alg };
             let kid = kid_of(alg);
